@@ -60,6 +60,7 @@ type c17Env struct {
 	bigs       int
 	flushes    []*wsCall
 	rawT       bool
+	bigIn      bool // the peer has sent its one oversize message
 	objfd      int  // the descriptor behind the adapter
 	cleanRead  bool // the read in flight was started with nothing queued or in flight on the write side
 }
@@ -327,6 +328,14 @@ func c17Body(depth int) func(x *engine.X) {
 					as = append(as, act{"peer-ping", func() {
 						e.pings++
 						e.peerSend(wsref.Frame{Fin: true, Op: wsref.OpPing, Payload: payloadBytes(len(e.sent)+70, 2)})
+					}})
+				}
+				if !e.bigIn {
+					// a message larger than the buffer handed to AsyncNextMessage: the message API answers with an error and
+					// an automatic Close(1001) — one more thing the read path writes while an application write may be in flight
+					as = append(as, act{"peer-data(larger than the read buffer)", func() {
+						e.bigIn = true
+						e.peerSend(wsref.Frame{Fin: true, Op: wsref.OpBinary, Payload: payloadBytes(len(e.sent)+9, len(e.buf)+44)})
 					}})
 				}
 				as = append(as, act{"peer-close", func() {
